@@ -9,7 +9,7 @@ sys.path.insert(0, os.path.dirname(os.path.abspath(__file__)))
 from common import Machinery  # noqa: E402
 
 MODULES = {
-    "C01": "checks.fixed", "C02": "checks.fixed", "C03": "checks.po2", "C04": "checks.binary", "C05": "checks.auto", "C06": "checks.grad", "C07": "checks.qnoise", "C08": "checks.stoch", "C09": "checks.roundtrip", "C10": "checks.strings", "C11": "checks.layers", "C12": "checks.mquant", "C13": "checks.modelrt", "C14": "checks.export", "C15": "checks.bnfold", "C16": "checks.qtypes", "C19": "checks.qops", "C17": "checks.qtypes", "C18": "checks.qmodel",
+    "C01": "checks.fixed", "C02": "checks.fixed", "C03": "checks.po2", "C04": "checks.binary", "C05": "checks.auto", "C06": "checks.grad", "C07": "checks.qnoise", "C08": "checks.stoch", "C09": "checks.roundtrip", "C10": "checks.strings", "C11": "checks.layers", "C12": "checks.mquant", "C13": "checks.modelrt", "C14": "checks.export", "C15": "checks.bnfold", "C16": "checks.qtypes", "C19": "checks.qops", "C20": "checks.autoq", "C17": "checks.qtypes", "C18": "checks.qmodel",
 }
 
 
